@@ -16,15 +16,12 @@ Proof.
   repeat match goal with |- context [if ?c then _ else _] => destruct c eqn:? end; cbn; lia.
 Qed.
 
-Section Steps.
+Section StepsU.
   Variable wrap : bool.
-  Variable pr_tbl gr_tbl : N -> bool.
 
   Notation unq_loop := (unq_loop wrap).
   Notation unquote_char := (unquote_char wrap).
   Notation unquote_escape := (unquote_escape wrap).
-  Notation escaped_rune := (escaped_rune pr_tbl gr_tbl).
-  Notation form_is_print := (form_is_print pr_tbl gr_tbl).
 
   (* ---- one iteration of the loop on an ordinary character ---- *)
   Lemma unq_step : forall k q c t rbuf st we v mb ss,
@@ -192,6 +189,36 @@ Section Steps.
     rewrite Nat.eqb_refl. reflexivity.
   Qed.
 
+  (* ---- an invalid byte in an exact (bytes) form: \xHH ---- *)
+  Lemma step_bad_byte : forall f ml hc b rest k rbuf st we,
+    public_form f -> f_exact f = true -> b < 256 ->
+    unq_loop (S k) (qi_for f ml hc) (esc_intro hc ++ 120 :: hex2 b ++ rest) rbuf st we =
+    unq_loop k (qi_for f ml hc) rest (b :: rbuf) false false.
+  Proof.
+    intros f ml hc b rest k rbuf st we Hpub Hex Hb.
+    set (q := qi_for f ml hc).
+    pose proof (public_quote f Hpub) as Hq.
+    assert (Hq92 : q_char q <> ch_bs) by (cbn; unfold ch_bs, ch_dq, ch_sq in *; lia).
+    unfold esc_intro. cbn [app].
+    replace (b :: rbuf) with (if false then rev (utf8_encode b) ++ rbuf else (b mod 256) :: rbuf)
+      by (rewrite N.mod_small; [reflexivity|lia]).
+    apply (unq_step k q ch_bs (hashes hc ++ 120 :: hex2 b ++ rest) rbuf st we b false rest); try (unfold ch_bs, ch_cr, ch_nl; lia).
+    change hc with (q_numhash q). rewrite uc_escape by assumption.
+      apply ue_hex2; [|assumption]. cbn.
+      destruct Hpub as [_ [[_ Hp]|[Hp _]]]; [congruence|]. rewrite Hp. discriminate.
+  Qed.
+End StepsU.
+
+Section Steps.
+  Variable wrap : bool.
+  Variable pr_tbl gr_tbl : N -> bool.
+
+  Notation unq_loop := (unq_loop wrap).
+  Notation unquote_char := (unquote_char wrap).
+  Notation unquote_escape := (unquote_escape wrap).
+  Notation escaped_rune := (escaped_rune pr_tbl gr_tbl).
+  Notation form_is_print := (form_is_print pr_tbl gr_tbl).
+
   (* ---- a rune escaped by appendEscapedRune, read back in one iteration ---- *)
   Lemma step_rune : forall f ml hc r rest k rbuf st we,
     public_form f -> scalar r ->
@@ -235,7 +262,7 @@ Section Steps.
         rewrite encode_ascii by assumption. cbn [rev app].
         replace (r :: rbuf) with (if false then rev (utf8_encode r) ++ rbuf else (r mod 256) :: rbuf)
           by (rewrite N.mod_small; [reflexivity|lia]).
-        apply (unq_step k q r rest rbuf st we r false rest); try (unfold ch_cr, ch_nl; lia); auto.
+        apply (unq_step wrap k q r rest rbuf st we r false rest); try (unfold ch_cr, ch_nl; lia); auto.
         destruct (N.eqb_spec r (f_quote f)) as [Heq|Hne].
         + (* a raw quote: only in multi-line mode *)
           destruct ml; [|cbn in E1; lia].
@@ -244,7 +271,7 @@ Section Steps.
           * unfold delim_len. cbn. specialize (Hml eq_refl). lia.
         + apply uc_ascii; try assumption; unfold ch_bs in *; lia.
       - destruct (encode_high r Hge) as [_ [b [t [E Hb]]]].
-        assert (US := unq_step k q b (t ++ rest) rbuf st we r true rest).
+        assert (US := unq_step wrap k q b (t ++ rest) rbuf st we r true rest).
         cbv iota in US. change (b :: t ++ rest) with ((b :: t) ++ rest) in US. rewrite <- E in US.
         apply US; try (unfold ch_cr, ch_nl; lia).
         + apply uc_multibyte; auto. rewrite Hqc. unfold ch_dq, ch_sq in *; lia.
@@ -277,22 +304,4 @@ Section Steps.
       apply ue_hex8. unfold max_rune. lia.
   Qed.
 
-  (* ---- an invalid byte in an exact (bytes) form: \xHH ---- *)
-  Lemma step_bad_byte : forall f ml hc b rest k rbuf st we,
-    public_form f -> f_exact f = true -> b < 256 ->
-    unq_loop (S k) (qi_for f ml hc) (esc_intro hc ++ 120 :: hex2 b ++ rest) rbuf st we =
-    unq_loop k (qi_for f ml hc) rest (b :: rbuf) false false.
-  Proof.
-    intros f ml hc b rest k rbuf st we Hpub Hex Hb.
-    set (q := qi_for f ml hc).
-    pose proof (public_quote f Hpub) as Hq.
-    assert (Hq92 : q_char q <> ch_bs) by (cbn; unfold ch_bs, ch_dq, ch_sq in *; lia).
-    unfold esc_intro. cbn [app].
-    replace (b :: rbuf) with (if false then rev (utf8_encode b) ++ rbuf else (b mod 256) :: rbuf)
-      by (rewrite N.mod_small; [reflexivity|lia]).
-    apply (unq_step k q ch_bs (hashes hc ++ 120 :: hex2 b ++ rest) rbuf st we b false rest); try (unfold ch_bs, ch_cr, ch_nl; lia).
-    change hc with (q_numhash q). rewrite uc_escape by assumption.
-      apply ue_hex2; [|assumption]. cbn.
-      destruct Hpub as [_ [[_ Hp]|[Hp _]]]; [congruence|]. rewrite Hp. discriminate.
-  Qed.
 End Steps.
